@@ -5,8 +5,11 @@ glue on the real CsvPath).
 
  programs  k marker components push("m<j>", line_number()) (k = 1..3, always matching) with ONE control component inserted at every position p = 0..k:
              stop(line_number() == F)      skip(line_number() == F)      advance(n) (n = 1, 2)      last.nocontrib() -> push("l", line_number()) (last position only)
+           and, for stop/skip at positions 1..k-1, the same programs with the FIRST marker qualified onmatch (push.onmatch(...)): an onmatch component
+           asks the matcher for the verdict of the whole line, i.e. it evaluates the other components itself (only the 'after' markers and the
+           returned lines are compared for these; what the onmatch marker itself does on the firing line is C14's subject)
  files     N = 1..6 one-cell records, with no blank record, one interior blank record, a trailing blank record
- scans     *, 1*, 1-3
+ scans     *, 1*, 1-3; for advance also the windows with a gap 0-1+4-5 and 1+3+5 (files of >= 5 records): lines in the gap do not use up the advance
  clause    markers before the control component run on every evaluated line, markers after it do not run on the line where stop/skip fires; no line
            after a stop is evaluated; the stop line is returned only if stop is the final component; a skipped line is not returned and the next
            line proceeds normally; advance(n): after an evaluated line the next n scanned lines are neither evaluated, returned nor counted as matches;
@@ -17,6 +20,8 @@ sys.path.insert(0, os.path.dirname(os.path.abspath(__file__)))
 from blib import Bounded, run_guarded
 
 SCANS = {"*": lambda i: True, "1*": lambda i: i >= 1, "1-3": lambda i: 1 <= i <= 3}
+GAP_SCANS = {"0-1+4-5": lambda i: i in (0, 1, 4, 5), "1+3+5": lambda i: i in (1, 3, 5)}     # windows with a gap (advance programs only)
+SCANS_ALL = {**SCANS, **GAP_SCANS}
 
 
 def files(thorough):
@@ -44,8 +49,14 @@ def main():
                         if rows[F] and SCANS[scan](F):
                             items.append(("stop", rows, scan, k, p, F))
                             items.append(("skip", rows, scan, k, p, F))
+                            if 1 <= p < k and scan == "*" and nrec <= 4:
+                                items.append(("stop+onmatch", rows, scan, k, p, F))
+                                items.append(("skip+onmatch", rows, scan, k, p, F))
                     for n in (1, 2):
                         items.append(("advance", rows, scan, k, p, n))
+                        if scan == "*" and nrec >= 5:
+                            for gs in GAP_SCANS:
+                                items.append(("advance", rows, gs, k, p, n))
                     if p == k:
                         # the properties place a 'last() ->' component last (what runs after it on the final line is not specified)
                         items.append(("last", rows, scan, k, p, None))
@@ -56,10 +67,16 @@ def main():
 
     def work1(b, item):
         kind, rows, scan, k, p, arg = item
+        onmatch = kind.endswith("+onmatch")
+        kind = kind.split("+")[0]
         key = {"control": kind, "rows": rows, "scan": scan, "markers": k, "position": p, "arg": arg}
+        if onmatch:
+            key["first_marker_onmatch"] = True
         b.case(key)
         fn = b.write_csv("f.csv", rows)
         markers = [f'push("m{j}", line_number())' for j in range(k)]
+        if onmatch:
+            markers[0] = 'push.onmatch("m0", line_number())'
         ctl = {"stop": f"stop(line_number() == {arg})", "skip": f"skip(line_number() == {arg})", "advance": f"advance({arg})",
                "last": 'last.nocontrib() -> push("l", line_number())'}[kind]
         comps = markers[:p] + [ctl] + markers[p:]
@@ -74,7 +91,7 @@ def main():
         if path.errors:
             b.fail("program_runs", key, "errors collected", [f"{e.error}" for e in path.errors][:2])
             return
-        offered = [i for i, r in enumerate(rows) if r and SCANS[scan](i)]
+        offered = [i for i, r in enumerate(rows) if r and SCANS_ALL[scan](i)]
         before = [f"m{j}" for j in range(p)]
         after = [f"m{j}" for j in range(p, k)]
         v = {m: list(path.variables.get(m, []) or []) for m in before + after}
@@ -98,6 +115,8 @@ def main():
         else:
             want_before = want_after = want_ret = offered
         for names, want, what in ((before, want_before, "before"), (after, want_after, "after")):
+            if onmatch and what == "before":
+                continue
             for m in names:
                 if v[m] != want:
                     b.fail({"stop": "no_component_after_a_stop_and_no_later_line", "skip": "no_component_after_a_skip_next_line_normal",
